@@ -86,6 +86,27 @@ def heavy(model, dom, sc):
         any(isinstance(n, _ast.For) for l in loops for n in _ast.walk(l) if n is not l)
 
 
+def chain(model, dom, sc, grid, dt):
+    """The grid states by definition: the step function applied along ts[0] + k dt by this rule's own loop (the driver under
+    test is not involved): [y0, step(t0, t1, y0), ...] and the final extra state."""
+    sde = solverkit.make_sde()
+    sde.attrs["sde_type"], sde.attrs["noise_type"] = sc.sde_type, sc.noise_type
+    bm = solverkit.make_bm(solverkit.BMLog())
+    g_ndim = 3 if sc.noise_type == dom.noise_types.get("scalar") else 2
+    it = Interp(model, _Hooks(g_ndim))
+    so = solverkit.solver_obj(model, sc.cls, sde, bm, dict(sc.options),
+                              extra_attrs={"dt": F(dt), "adaptive": False, "dt_min": F(1, 10 ** 5)})
+    y = nf.sym("y0")
+    init = model.lookup_method(sc.cls, "init_extra_solver_state")
+    extra = tuple(it.call_function(init, [so, grid[0], y], {}))
+    out = [y]
+    for a, b in zip(grid[:-1], grid[1:]):
+        y, extra = it.call_function(sc.step_fi, [so, a, b, y, extra], {})
+        extra = tuple(extra) if isinstance(extra, (tuple, list)) else (extra,)
+        out.append(y)
+    return out, extra
+
+
 def same(a, b):
     if isinstance(a, (tuple, list)) or isinstance(b, (tuple, list)):
         return isinstance(a, (tuple, list)) and isinstance(b, (tuple, list)) and len(a) == len(b) and \
@@ -154,6 +175,17 @@ def r12_10(ctx):
                 ref, ref_extra = solve(model, dom, sc, grid, dt)
                 state = dict(zip(grid, ref))
                 bad = []
+                # the grid is ts[0] + k dt, whatever ts[0] is: the driver's grid states are the step function chained along
+                # that grid by this rule's own loop, also for a start that is no multiple of dt and for a negative one
+                for t_start in (F(1, 32), F(-3, 16)):
+                    g2 = [t_start + (t - grid[0]) for t in grid]
+                    got, got_extra = solve(model, dom, sc, g2, dt)
+                    want, want_extra = chain(model, dom, sc, g2, dt)
+                    if not (same(got, want) and same(got_extra, want_extra)):
+                        k = next((i for i, (x, y_) in enumerate(zip(got, want)) if not same(x, y_)), len(want))
+                        bad.append(f"from ts[0] = {t_start} the state reported at ts[0] + {k} steps is not the step function applied "
+                                   f"{k} times along ts[0] + k dt")
+                        break
                 if not same(ref[0], nf.sym("y0")):
                     bad.append("ys[0] is not y0")
                 for label, ts in (("end points only", [F(0), T]),
